@@ -455,6 +455,10 @@ static void do_pass(void)
 	int first_rec = nrecs;
 	uint64_t ev_at_start = ev_clock;
 	int nreqs_at_start = nreqs;
+	bool in_progress_at_start = false; /* a sender between claim and send blocks the queue behind it */
+	for (int i = 0; i < nreqs; i++)
+		if (!reqs[i].ret && !reqs[i].withdrawn)
+			in_progress_at_start = true;
 	shim_clear_last_watched_load();
 	yielded_last_pass = false;
 	int disp_before[NFIB];
@@ -472,7 +476,7 @@ static void do_pass(void)
 	if (wake != Tv && nreqs == nreqs_at_start) {
 		/* everything requested before this pass has been drained and served - unless some request is still
 		 * in progress (a sender between claim and send blocks the queue behind it) */
-		bool in_progress = false;
+		bool in_progress = in_progress_at_start;
 		for (int i = 0; i < nreqs; i++)
 			if (!reqs[i].ret && !reqs[i].withdrawn)
 				in_progress = true;
